@@ -283,7 +283,8 @@ def run_replay(check_id, path, repo, as_json):
     if rec.get("case", {}).get("harness_exception"):
         # re-run the recorded state through the check's own driver
         task = dict(rec["case"]["task"], shard=0, nshards=1, backend=be)
-        task["regime"] = ["dense", rec["case"]["clock"], rec["case"]["clock"]]
+        ck = rec["case"]["clock"]
+        task["regime"] = ["dense", ck, ck] if ck >= 0 else ["near", -ck, -ck]
         from . import pairs as _pairs, lattice as _lat
         r = Result()
         with common.quiet():
